@@ -15,6 +15,7 @@ import VaxisModel.Lemmas.EmuSafe1
 import VaxisModel.Lemmas.EmuSafe2
 import VaxisModel.Lemmas.EmuSafe3
 import VaxisModel.Lemmas.EmuSafe4
+import VaxisModel.Lemmas.EmuResize
 
 namespace VaxisModel.Props.C05
 open VaxisModel.Model.Emu VaxisModel.Lemmas.Emu VaxisModel.Gen.TermModes
@@ -193,6 +194,19 @@ theorem resize_preserves_pen {e e' : Emu} {w h : Int} (hr : resize Fixes.current
   · cases hq : reflow Fixes.current e.cur.row e.primary 0 (resizeInit e w h) with
     | error p => rw [hq] at hr; cases hr
     | ok e1 => rw [hq] at hr; cases hr; rfl
+
+/-- What a resize leaves alone / sets, for EVERY old state (no invariant needed): pen, cursor shape,
+    modes, OSC 8 switch, tab stops, character sets (outside a single shift) are kept; the active
+    screen is the one mode 1049 selects; the alternate grid is blank; the margins are the full new
+    screen; both saved cursors are clamped; the deferred-wrap flag is only set with the cursor in the
+    pending-wrap column. (`Lemmas.EmuResize.ResizeFrame`; used by the C12 composition across resizes.) -/
+theorem resize_frame {e e' : Emu} {w h : Int} (hr : resize Fixes.current e w h = .ok e') :
+    VaxisModel.Lemmas.EmuResize.ResizeFrame e e' w h :=
+  VaxisModel.Lemmas.EmuResize.resize_keep hr
+
+/-- Non-vacuity of `resize_frame` / `resize_preserves_pen`: the resize of the F112c scenario succeeds. -/
+example : ∃ e e', resize Fixes.current e 5 2 = .ok e' ∧ e.primary ≠ [] :=
+  ⟨{ ({} : Emu) with primary := [[{ g := [97], w := 1, st := { bg := 7 } }], [{}]], cur := { row := 1 } }, _, rfl, by decide⟩
 
 /-- … and so does every step `resize` of the machine. -/
 theorem resize_step_preserves_pen {e : Emu} {w h : Int} {r : Emu × Nat}
